@@ -14,6 +14,7 @@ search : the property's own oracle on the implementation's output alone (indepen
 """
 import json
 import os
+import shutil
 import subprocess
 
 import vf
@@ -622,13 +623,20 @@ def case_hint(case):
 
 # ------------------------------------------------------------------------------------------------ running
 
+def run_dir(ctx):
+    """scratch directory of THIS process (several checks of C13 may run at the same time)"""
+    d = os.path.join(ctx.workdir, "run-%d" % os.getpid())
+    os.makedirs(d, exist_ok=True)
+    return d
+
+
 def run_both(ctx, drv, mdl_exe, cases, tag):
     """run both drivers on the cases (sharded over the cores); -> (impl lines, model lines)"""
     nsh = max(1, min(vf.NCPU, len(cases) // 20 + 1))
     procs = []
     for k in range(nsh):
         part = cases[k::nsh]
-        p = os.path.join(ctx.workdir, "%s.%d.cases" % (tag, k))
+        p = os.path.join(run_dir(ctx), "%s.%d.cases" % (tag, k))
         with open(p, "w") as f:
             f.write("\n".join(part) + ("\n" if part else ""))
         pc = subprocess.Popen([drv, p], stdout=subprocess.PIPE, stderr=subprocess.DEVNULL)
@@ -649,7 +657,7 @@ def shrink(ctx, drv, mdl_exe, case, want):
     """greedy removal of operations while a problem of the same class (ORACLE or correspondence) remains"""
     secs = case.split("|")
     ops = [o for o in secs[3].split(";") if o.strip()]
-    for _ in range(12):
+    for _ in range(80):
         cands = []
         for i in range(len(ops)):
             cands.append("|".join(secs[:3] + [";".join(ops[:i] + ops[i + 1:])]))
@@ -770,6 +778,7 @@ def run(ctx):
     ctx.cov["samples"] = [c.split("|", 3)[3][:300] for c in cases[:3]]
     ctx.cov["input_distribution"] = {"operations": dict(sorted(hist_total.items())), "model_size": sizes}
     ctx.cov["traces_validated_against_impl"] = len(cases)
+    shutil.rmtree(run_dir(ctx), ignore_errors=True)
     ctx.log("histories=%d operations=%d nontrivial=%d problem tally (histories)=%s" % (len(cases), nops, len(nontrivial), tally))
 
 
